@@ -19,7 +19,7 @@
   `data_format`: both layouts (`Geom.cf`): channels_last reads / writes NHWC, channels_first NCHW
   (the kernel layout does not depend on it).  `ctorCfg` mirrors the constructors: both
   `QConv2DBatchnorm.__init__` and `QDepthwiseConv2DBatchnorm.__init__` forward `data_format` to
-  their base class (the conv class since fix 8710a09; before it the argument was dropped and the
+  their base class (the conv class since fix 90019a5; before it the argument was dropped and the
   layer always took the process-wide format), whose `Conv2D.__init__` resolves an omitted argument
   (`None`) to the process-wide `K.image_data_format()` of the moment of construction
   (`resolveFormat`).  An explicit argument never looks at the process-wide setting.
@@ -150,7 +150,7 @@ def resolveFormat (globalCF : Bool) (df : Option Bool) : Bool :=
     `QDepthwiseConv2DBatchnorm.__init__(…, data_format=df)` both hand `df` to their base class
     (`data_format=data_format`; both declare the default `None`), which stores
     `resolveFormat globalCF df`.  Nothing else of the configuration is touched; the class plays no
-    role.  (Before fix 8710a09 the conv class did not forward the argument:
+    role.  (Before fix 90019a5 the conv class did not forward the argument:
     `cf := resolveFormat globalCF none` whatever `df` was.) -/
 def ctorCfg (globalCF : Bool) (df : Option Bool) (c : LayerCfg) : LayerCfg :=
   { c with g := { c.g with cf := resolveFormat globalCF df } }
